@@ -71,8 +71,18 @@ def model_to_args(model):
         return v
 
     def num(v):
-        if isinstance(v, list) and len(v) == 2 and all(isinstance(x, int) for x in v):
-            return v[0] / v[1]
+        if isinstance(v, str):
+            if v == "nan":
+                return float("nan")
+            if v.startswith("fin(") and v.endswith(")"):
+                q = v[4:-1].replace(" ", "")
+                neg = q.startswith("-")
+                q = q.strip("-()")
+                a, _, b = q.partition("/")
+                x = float(a) / float(b) if b else float(a)
+                return -x if neg else x
+        if isinstance(v, list):
+            return [num(x) for x in v]
         return v
 
     def arr(d):
@@ -87,7 +97,7 @@ def model_to_args(model):
             if isinstance(v, dict):
                 if v.get("data") is None:
                     return None
-                out[k] = v["data"]
+                out[k] = num(v["data"])
             elif v is None:
                 return None
             else:
